@@ -3,62 +3,24 @@
 (* mouse events, aircraft arriving (with or without a position) and expiring, bursts of input events between two *)
 (* draws.  Invariants: no handler and no draw panics; after a draw the selection is within the rows; input never  *)
 (* changes the data.  One behaviour per distinct state is printed as a REPLAY line.                               *)
-EXTENDS RadarUI, IOUtils, TLC
+EXTENDS RadarLoop, IOUtils, TLC
 
 MCGuards == IOEnv.GUARDS = "1"
-MaxRows == 2
-MaxBurst == atoi(IOEnv.MAXBURST)
-MaxSteps == atoi(IOEnv.MAXSTEPS)
-Touch == IOEnv.TOUCH = "1"
+MCMaxRows == 2
+MCMaxBurst == atoi(IOEnv.MAXBURST)
+MCMaxSteps == atoi(IOEnv.MAXSTEPS)
+MCTouch == IOEnv.TOUCH = "1"
 PrintReplay == IOEnv.REPLAY = "1"
 
-KeysA == << "F(1)", "F(2)", "F(3)", "F(4)", "F(5)", "Tab", "Up", "Down", "Left", "Right", "Enter",
+MCKeysA == << "F(1)", "F(2)", "F(3)", "F(4)", "F(5)", "Tab", "Up", "Down", "Left", "Right", "Enter",
             "Char('+')", "Char('-')", "Char('l')", "Char('t')", "Char('x')", "Char('q')" >>
 \* mouse alphabet: <<kind, col, row>> on an 80 x 24 terminal
-MouseA == << <<"Down(Left)", 25, 2>>, <<"Down(Left)", 4, 2>>, <<"Down(Left)", 5, 6>>, <<"Down(Left)", 5, 12>>, <<"Down(Left)", 5, 20>>,
+MCMouseA == << <<"Down(Left)", 25, 2>>, <<"Down(Left)", 4, 2>>, <<"Down(Left)", 5, 6>>, <<"Down(Left)", 5, 12>>, <<"Down(Left)", 5, 20>>,
              <<"Drag(Left)", 30, 10>>, <<"Drag(Left)", 33, 12>>, <<"Up(Left)", 33, 12>>, <<"ScrollUp", 40, 10>>, <<"ScrollDown", 40, 10>> >>
 \* touchscreen buttons of an 80 x 24 terminal (three blocks of the 20-row area below the tab bar): <<y, height>>
-BtnOn == << <<4, 6>>, <<10, 7>>, <<17, 6>> >>
+MCBtnOn == << <<4, 6>>, <<10, 7>>, <<17, 6>> >>
 
-VARIABLES s, rows, det, phase, burst, hist, steps,
-          total, most, adds          \* statistics tab: aircraft ever added, largest simultaneous count; adds = history of arrivals
-vars == <<s, rows, det, phase, burst, hist, steps, total, most, adds>>
-View == <<s, rows, det, phase, burst, steps, total, most, adds>>
 
-RX == [lat |-> 52000000, lon |-> 4000000]
-PosOf(i) == [lat |-> 52100000 + 10000 * i, lon |-> 4200000]
-Btn == IF Touch /\ s.tab \in {0, 1} THEN BtnOn ELSE << >>
-LeftEdge == IF Touch /\ s.tab \in {0, 1} THEN 11 ELSE 1
-
-Init == /\ s = Init0 /\ rows = 0 /\ det = << >> /\ phase = "draw" /\ burst = 0 /\ hist = << >> /\ steps = 0
-        /\ total = 0 /\ most = 0 /\ adds = 0
-
-Alive == ~s.panicked /\ ~s.quit /\ steps < MaxSteps
-Step(tag) == /\ steps' = steps + 1 /\ hist' = Append(hist, tag)
-
-Draw == /\ Alive /\ phase = "draw"
-        /\ s' = DrawStep(s, rows) /\ phase' = "events" /\ burst' = 0
-        /\ Step(<<"draw">>) /\ UNCHANGED <<rows, det, total, most, adds>>
-Key(i) == /\ Alive /\ phase = "events" /\ burst < MaxBurst
-          /\ s' = KeyStep(s, KeysA[i], FALSE, rows, LAMBDA k : det[k + 1], PosOf, RX)
-          /\ burst' = burst + 1 /\ Step(<<"key", KeysA[i]>>) /\ UNCHANGED <<rows, det, phase, total, most, adds>>
-Mouse(i) == /\ Alive /\ phase = "events" /\ burst < MaxBurst
-            /\ s' = MouseStep(s, MouseA[i][1], MouseA[i][2], MouseA[i][3], Btn, LeftEdge, RX)
-            /\ burst' = burst + 1 /\ Step(<<"mouse", MouseA[i][1], MouseA[i][2], MouseA[i][3]>>) /\ UNCHANGED <<rows, det, phase, total, most, adds>>
-\* the loop goes round: traffic may arrive / aircraft may expire before the next draw
-Loop == /\ Alive /\ phase = "events"
-        /\ \/ UNCHANGED <<rows, det, total, most, adds>> /\ Step(<<"loop">>)
-           \/ /\ rows < MaxRows /\ \E d \in BOOLEAN : det' = Append(det, d) /\ Step(<<"arrive", IF d THEN 1 ELSE 0>>)
-              /\ rows' = rows + 1
-              \* Stats::update runs after the frame was handed to the tracker and before expiry
-              /\ total' = total + 1 /\ adds' = adds + 1 /\ most' = IF rows + 1 > most THEN rows + 1 ELSE most
-           \/ /\ rows > 0 /\ rows' = 0 /\ det' = << >> /\ Step(<<"expire">>) /\ UNCHANGED <<total, most, adds>>
-        /\ phase' = "draw" /\ UNCHANGED <<s, burst>>
-
-Next == Draw \/ (\E i \in 1..Len(KeysA) : Key(i)) \/ (\E i \in 1..Len(MouseA) : Mouse(i)) \/ Loop
-Spec == Init /\ [][Next]_vars
-
-NoPanic == ~s.panicked
 SelectionShown == (phase = "events" /\ burst = 0 /\ s.tab = 2 /\ ~s.panicked) => (s.sel = NoSel \/ s.sel < rows)
 \* statistics (C18): the total counts every time an aircraft was newly added, "most" is the largest simultaneous count
 StatsOK == total = adds /\ most >= rows /\ most <= total /\ (adds > 0 => most >= 1)
